@@ -25,11 +25,13 @@ def sink_key(key):
     return cls, fn, kind
 
 
-def run_totality(ctx, rule, modules, targets, axioms=None, depth=5, cap=64, ctors=(), handproofs=None, what='query'):
+def run_totality(ctx, rule, modules, targets, axioms=None, depth=5, cap=64, ctors=(), handproofs=None, what='query', expr_axioms=None,
+                 record_raises=False):
     """analyse entry points; one obligation per distinct sink; finding per unproved sink.
     targets: [(class, [methods])]; ctors: classes whose __init__ is analysed with free parameters."""
     prog = Program(ctx.prog, set(modules))
-    an = Analyser(prog, axioms=axioms or {}, max_depth=depth, cap=cap)
+    an = Analyser(prog, axioms=axioms or {}, max_depth=depth, cap=cap, record_raises=record_raises)
+    an.expr_axioms = {k: v[0] for k, v in (expr_axioms or {}).items()}
     handproofs = handproofs or {}
     entries = 0
     ranges = {}
@@ -71,6 +73,11 @@ def run_totality(ctx, rule, modules, targets, axioms=None, depth=5, cap=64, ctor
                         f'{what} can raise: `{text}` ({kind}) is not proved safe -- ' + '; '.join(sorted(e['why']))[:200]
                         + (f' [reached via {chain}]' if '>' in chain else ''),
                         construct=text, where=f'{cls}.{fn}', extra={'call_chains': sorted(e['chains'])[:4]})
+    for k, (iv, proof) in (expr_axioms or {}).items():
+        if k in an.expr_axioms_used:
+            ctx.assume(f'hand-proved local range fact in {k[0]}.{k[1]}: `{k[2]}` in {iv} -- {proof}')
+        else:
+            ctx.note(f'{rule}: hand-proof entry for `{k[2]}` in {k[0]}.{k[1]} did not match any expression (stale entry, ignored)')
     if an.notes:
         deep = sorted({n for n in an.notes if 'depth limit' in n})
         if deep:
